@@ -400,7 +400,7 @@ def render_params(rng, vals, lay, cmt_at):
 
 
 RISKY = ["comment-before-semicolon", "comment-between-id-and-eq", "comment-before-endsec", "whitespace-after-keyword",
-         "comment-between-keyword-and-paren", "two-comments-one-instance"]
+         "comment-between-keyword-and-paren", "two-comments-one-instance", "two-comments-before-instance"]
 
 
 def render_instance(rng, x, lay=True, cmt=True, risky=None):
@@ -417,6 +417,8 @@ def render_instance(rng, x, lay=True, cmt=True, risky=None):
     out = ws(rng, lay)
     if where == "lead":
         out += comment(rng) + ws(rng, lay)
+    if risky == "two-comments-before-instance":
+        out += comment(rng, semi=False) + ws(rng, lay) + comment(rng, semi=False) + ws(rng, lay)
     out += f"#{x['id']}" + ws(rng, lay)
     if risky == "comment-between-id-and-eq":
         out += comment(rng, semi=False) + ws(rng, lay)
